@@ -376,8 +376,8 @@ fail:
   if (entry != NULL && entry->key != NULL) {
     ares_htable_strvp_remove(qcache->cache, entry->key);
     ares_free(entry->key);
-    ares_free(entry);
   }
+  ares_free(entry);
   return ARES_ENOMEM;
   /* LCOV_EXCL_STOP */
 }
